@@ -266,17 +266,17 @@ def select_grammars(tier, seed, wd, run):
     pool += [("classics", G) for G in gs]
     gs, r = pipeline.dump_universe("U2", wd)
     run.add_tlc(r)
-    n_u = 380 if tier == "quick" else 6000
+    n_u = 380 if tier == "quick" else 1500
     pool += [("U2", G) for G in rng.sample(gs, min(len(gs), n_u))]
     for u in ("U3a", "U3b"):
         gs, r = pipeline.dump_universe(u, wd)
         run.add_tlc(r)
-        pool += [(u, G) for G in rng.sample(gs, min(len(gs), 120 if tier == "quick" else 3000))]
+        pool += [(u, G) for G in rng.sample(gs, min(len(gs), 120 if tier == "quick" else 500))]
     # larger seeded random grammars (right-hand sides up to 5 symbols, so reduce functions with many fields and `_` masks in
     # every position run) - few terminals keep "all strings up to n" small
-    for _ in range(80 if tier == "quick" else 1500):
+    for _ in range(80 if tier == "quick" else 300):
         pool.append(("random", pipeline.random_grammar(rng, max_nts=4, max_ts=2, max_rules=7, max_rhs=5)))
-    for _ in range(160 if tier == "quick" else 3000):
+    for _ in range(160 if tier == "quick" else 600):
         G = pipeline.bracket_grammar(rng)
         if len(G["ts"]) <= 3:
             pool.append(("bracket", G))
@@ -303,7 +303,7 @@ def select_grammars(tier, seed, wd, run):
                 c["origin"] = "classics"      # never sampled away
                 drifted.append(c)
             ok.append(c)
-    cap = 560 if tier == "quick" else 9000
+    cap = 560 if tier == "quick" else 2600
     # grammars on which the pipeline's end-state judgement (PipelineJudge: verdict, automaton, tables) already disagrees with
     # the specification are the ones whose parsers most likely misbehave: run them for sure. On a correct tree there are none.
     suspicious = []
@@ -391,7 +391,9 @@ def check(prop, tier, seed):
     run = common.Run(prop, tier, seed)
     wd = common.workdir("emitted_%s_%s" % (prop, tier))
     common.build_harness()
-    maxlen = 5 if tier == "quick" else 6
+    # the thorough tier once ran 9 000 grammars with inputs of up to 6 tokens: MC_Driver ended in a Java StackOverflowError after
+    # 30 minutes (8 workers x 1 GB stacks); it now takes 2 600 grammars with inputs of up to 5 tokens (the depth comes from the longer inputs judged by DriverJudge)
+    maxlen = 5
     cases = select_grammars(tier, seed, wd, run)
     log("  %d accepted grammars selected" % len(cases))
     preds, r = predictions(cases, maxlen, wd, run)
@@ -580,6 +582,20 @@ def longer_inputs(prop, tier, seed, run, wd):
         row = [rng.choice(ts + ts + ["Cell"]) for _ in range(k)]
         cands.append(("wide", {"nts": ["Row", "Cell"], "ts": ts, "start": "Row",
                                "rules": [{"lhs": "Row", "rhs": row}, {"lhs": "Cell", "rhs": ["$Tb", "$Ta"]}, {"lhs": "Cell", "rhs": ["$Ta"]}]}))
+    # one-dimension scale: a rule with 40-130 fields; a chain of 150 / 400 unit productions; list grammars (right recursive =
+    # deep stack, left recursive, nested brackets) that get inputs of thousands of tokens below
+    ts = ["$Ta", "$Tb"]
+    for k in ((40, 101) if tier == "quick" else (40, 101, 130, 130)):
+        row = [rng.choice(ts + ts + ["Cell"]) for _ in range(k)]
+        cands.append(("wide", {"nts": ["Row", "Cell"], "ts": ts, "start": "Row",
+                               "rules": [{"lhs": "Row", "rhs": row}, {"lhs": "Cell", "rhs": ["$Tb", "$Ta"]}, {"lhs": "Cell", "rhs": ["$Ta"]}]}))
+    n = 150 if tier == "quick" else 400
+    cands.append(("wide", {"nts": ["C%d" % i for i in range(n)], "ts": ts, "start": "C0",
+                           "rules": [{"lhs": "C%d" % i, "rhs": ["C%d" % (i + 1)]} for i in range(n - 1)] + [{"lhs": "C%d" % (n - 1), "rhs": ["$Ta", "$Tb"]}]}))
+    LISTS = [("list-right", {"nts": ["L"], "ts": ts, "start": "L", "rules": [{"lhs": "L", "rhs": []}, {"lhs": "L", "rhs": ["$Ta", "L"]}]}),
+             ("list-left", {"nts": ["L"], "ts": ts, "start": "L", "rules": [{"lhs": "L", "rhs": []}, {"lhs": "L", "rhs": ["L", "$Ta"]}]}),
+             ("list-nest", {"nts": ["L"], "ts": ts, "start": "L", "rules": [{"lhs": "L", "rhs": []}, {"lhs": "L", "rhs": ["$Ta", "L", "$Tb"]}]})]
+    cands += LISTS
     cases = []
     for origin, G in cands:
         pres = grammar.present(G, rng, payload=None)
@@ -592,10 +608,22 @@ def longer_inputs(prop, tier, seed, run, wd):
         if c["resp"]["res"]["t"] == "ok":
             c["rust"] = c["resp"]["res"]["rust"]
             ok.append(c)
-    ok = [c for c in ok if c["origin"] == "wide"] + [c for c in ok if c["origin"] != "wide"][:120 if tier == "quick" else 800]
+    ok = [c for c in ok if c["origin"] == "wide" or c["origin"].startswith("list-")] + [c for c in ok if c["origin"] != "wide" and not c["origin"].startswith("list-")][:120 if tier == "quick" else 800]
     inputs, meta = [], []
     per = 12 if tier == "quick" else 40
+    N = 1500 if tier == "quick" else 4000
+    __import__("sys").setrecursionlimit(100000)
     for k, c in enumerate(ok):
+        if c["origin"].startswith("list-"):
+            # thousands of tokens: a sentence, the sentence cut short, and one foreign token in the middle
+            a, b = "$Ta", "$Tb"
+            body = [a] * N if c["origin"] != "list-nest" else [a] * (N // 2) + [b] * (N // 2)
+            variants = [body, body[:-1] if c["origin"] == "list-nest" else body + [a], body[:N // 3] + [b] + body[N // 3:]]
+            for w in variants:
+                ids = [rng.randrange(1, 1000000) for _ in w]
+                inputs.append((k, [(c["pres"]["ts"].index(x), i) for x, i in zip(w, ids)]))
+                meta.append((k, w, ids))
+            continue
         G = dict(c["G"], ts=c["pres"]["ts"])
         for _ in range(per):
             w = random_sentence_like(G, rng, 40)
